@@ -1506,4 +1506,61 @@ class C08(Prop):
         return {"config": case.split()[0], "program": _c08_program(case), "how": "implrun run C08 --cases <file with the case line> --impl <out> (supervised child process); `implrun c08show <words after the configuration>` prints the program"}
 
 
-PROPS = {p.id: p for p in [C06(), C19(), C11(), C16(), C13(), C10(), C15(), C09(), C12(), C14(), C07(), C17(), C05(), C18(), C04(), C08()]}
+class C03(Prop):
+    id = "C03"
+    gens = []
+    header = 99
+    n_quick = 600
+    n_thorough = 12000
+    design_ref = "DESIGN.md §4 C03"
+    # injected violations the property's text requires to be rejected (the generator has more kinds; the others are
+    # counted but not demanded)
+    REQUIRED = {"const-write", "const-compound", "const-incr", "rvalue-write", "rvalue-incr", "call-write", "literal-write", "out-rvalue", "out-const", "inout-literal",
+                "arity-more", "arity-less", "arg-struct", "arg-void", "ret-struct", "ret-void-value", "ret-missing-value", "const-member-write", "const-param-write",
+                "const-array-write", "swizzle-repeat-write", "cbuffer-write", "static-const-global-write"}
+    assumptions = [
+        "theorems are about the checker `wt` (coq/model/IRType.v), the specification of well-typed IR: a passed check means every node's type is the one derived bottom-up, every operand has exactly the required type, writes go to lvalues whose path goes through nothing const, calls match their signature, returns and initialisers match; there is no model of the elaborator, so 'every accepted program passes' is observed (the extracted checker runs on the IR of every program the harness type checks), not proved",
+        "each node of the dump carries the type Expression::get_type answers (its assertions are caught and reported as IRFAULT); nodes the checker does not model (object members, matrix swizzles, mesh / make-signed intrinsics) are taken at that type, their operands are still checked",
+        "conditions of if / while / for are not required to be bool and aggregate initialisers are only checked element by element (the property's list does not name them)",
+        "rejection: a well-typed generated program plus one function with a single injected violation must be rejected; 23 violation kinds are demanded (writes to const / non-lvalues in every form, out / inout arguments, arity, unconvertible arguments, wrong returns), 11 further kinds are counted only",
+    ]
+
+    def kind(self, case):
+        w = case.split()
+        if w[0] == "V":
+            return "violation " + w[3]
+        return "IR " + w[1].split(":")[0]
+
+    def model_input(self, case, impl):
+        return impl if impl.startswith("IR ") else "SKIP"
+
+    def comparable(self, case, impl, model):
+        return False
+
+    def oracle(self, case, impl, model=None):
+        w = case.split()
+        if impl.startswith("PANIC"):
+            return None          # C08's business
+        if w[0] == "W":
+            if impl.startswith("IRFAULT"):
+                return "the IR's own typing rules fail: " + impl[8:300]
+            if impl.startswith("IR ") and model is not None:
+                if model.startswith("ILL"):
+                    return "accepted program with ill-typed IR: " + model[:400]
+                if model.startswith("BAD-DUMP"):
+                    return "IR dump not understood by the checker: " + model[:200]
+            return None
+        if w[0] == "V" and impl.startswith("ACCEPTED") and w[3] in self.REQUIRED:
+            return "a program with the injected violation `%s` is accepted: %s" % (w[3], impl[9:300])
+        return None
+
+    def known_class(self, case, impl, model):
+        if model and model.startswith("ILL") and "default argument has another type than the parameter" in model:
+            return "default-argument-keeps-literal-type"
+        return None
+
+    def nontrivial(self, case, impl):
+        return impl.startswith("IR ") or impl.startswith("REJECTED")
+
+
+PROPS = {p.id: p for p in [C06(), C19(), C11(), C16(), C13(), C10(), C15(), C09(), C12(), C14(), C07(), C17(), C05(), C18(), C04(), C08(), C03()]}
